@@ -158,6 +158,17 @@ def probe_projects():
         add("channel-type", cls, use, defs + "use tauri::ipc::Channel;\n" + rg.command_src("get_item", [("id", "i32"), ("ch", "Channel<%s>" % use)], "Item"))
         add("event-payload-type", cls, use, defs + rg.command_src("get_item", [("id", "i32")], "Item") +
             "pub fn notify(app: tauri::AppHandle, p: %s) {\n    app.emit(\"arr\", p).unwrap();\n}\n\n" % use.replace("&'static ", "&"))
+    # --- instantiations of generic types the tool has no table entry for: project generics and std smart pointers
+    for use in ("Page<Item>", "Page<Vec<Item>>", "Page<Option<Page<Item>>>", "Vec<Page<Vec<Item>>>", "Box<Item>", "std::sync::Arc<Vec<Item>>", "Rc<Option<Item>>",
+                "Option<Box<Vec<Item>>>", "HashMap<String, Page<Vec<i32>>>"):
+        cls = "project-generic-instantiation" if "Page" in use else "smart-pointer"
+        defs = rg.struct_src("Item", [("a", "i32")]) + raw_struct("Page<T>", [("items", "Vec<T>"), ("total", "u32")])
+        add("param-type", cls, use, defs + rg.command_src("get_item", [("req", use)], "Item"))
+        add("return-type", cls, use, defs + rg.command_src("get_item", [("id", "i32")], use))
+        add("field-type", cls, use, defs + raw_struct("Holder", [("h", use)]) + rg.command_src("get_item", [("hh", "Holder")], "Holder"))
+        add("channel-type", cls, use, defs + "use tauri::ipc::Channel;\n" + rg.command_src("get_item", [("id", "i32"), ("ch", "Channel<%s>" % use)], "Item"))
+        add("event-payload-type", cls, use, defs + rg.command_src("get_item", [("id", "i32")], "Item") +
+            "pub fn notify(app: tauri::AppHandle, p: %s) {\n    app.emit(\"gen\", p).unwrap();\n}\n\n" % use)
     # --- events
     for cls, names in EVENT_NAMES:
         for nm in names:
